@@ -445,6 +445,13 @@ async fn main(plan: Plan) -> Outcome {
             1 => session.execute_unpaged(p, (m as i64, b.as_str(), a)).await,
             _ => session.execute_unpaged(p, (c, m as i64, a, b.as_str())).await,
         };
+        if let Some(e) = res.as_ref().err().filter(|e| !matches!(e, scylla::errors::ExecutionError::EmptyPlan)) {
+            // (An empty plan is legitimate: a preferred datacenter without failover may
+            // permit no node at all.) No fault is injected in the measured phase: every node is up and every
+            // statement well-formed. (An execution that fails before it is sent - e.g.
+            // because its partition key cannot be computed - is never routed at all.)
+            out.violation("c12.execution_failed", format!("execution marker {m} failed although no fault is active: {}", client::short_err(e)));
+        }
         if let Ok(qr) = res {
             if let Err(e) = client::check_marker_rows(qr, m) {
                 out.violation("c12.attribution", e);
